@@ -1073,7 +1073,11 @@ const (
 func c05Wrap(n *gen.Node, d int) *gen.Node {
 	for i := 0; i < d; i++ {
 		if i%2 == 0 {
-			n = gen.Obj(gen.Int("0").K("pad"), n.K(fmt.Sprintf("k%d", i)))
+			key := fmt.Sprintf("k%d", i)
+			if i == 2 {
+				key = "@k2" // a quoted key that looks like a type name is still a plain key
+			}
+			n = gen.Obj(gen.Int("0").K("pad"), n.K(key))
 		} else {
 			n = gen.Arr(n)
 		}
@@ -1191,6 +1195,16 @@ func (g *c05Gen) pickType(ok func(t c05Type) bool) (c05Type, bool) {
 
 func (g *c05Gen) key() string {
 	g.keySeq++
+	// quoted keys may look like type names, carry quotes or be empty-ish: they are plain keys, and
+	// whatever is written below them is still part of the schema
+	switch g.rng.IntN(8) {
+	case 0:
+		return fmt.Sprintf("@k%d", g.keySeq)
+	case 1:
+		return fmt.Sprintf("\"q%d\"", g.keySeq)
+	case 2:
+		return fmt.Sprintf("k %d/#", g.keySeq)
+	}
 	return fmt.Sprintf("k%d", g.keySeq)
 }
 
